@@ -383,6 +383,13 @@ func SetDefs(sc Scenario, t Timeouts) time.Duration {
 	return 2*t.InputFlush + 2*t.Channel + (t.Ack + 2*t.Channel) + t.Channel + defs.ForwarderAckerStopTimeout + defs.ForwarderBatchSendTimeoutBase
 }
 
+// ConfiguredStopBound is the longest path of a stop computed from the parameters as they are set now, safety nets included:
+// input flush + channel hand-offs + buffer shutdown + acker stop + one send.
+func ConfiguredStopBound() time.Duration {
+	return 2*defs.InputFlushInterval + 2*defs.IntermediateChannelTimeout + defs.BufferShutDownTimeout + defs.IntermediateChannelTimeout +
+		defs.ForwarderAckerStopTimeout + defs.ForwarderBatchSendTimeoutBase
+}
+
 // ---------- the agent ----------
 
 // Agent is one running generation.
